@@ -237,6 +237,125 @@ def m_unwrap_or_else(it, callee, args):
     return it.call_closure(args[1], [])
 
 
+def m_closure_call(it, callee, args):
+    """<{closure} as Fn*<(A, B)>>::call*(closure, (a, b)) / <fn item as Fn*>::call*"""
+    tup = val(args[1])
+    clo = args[0]
+    cv = val(clo)
+    if isinstance(cv, Agg) and cv.kind == "fnptr":
+        return it.dispatch(cv.name, list(tup.fields))
+    return it.call_closure(clo, list(tup.fields))
+
+
+def m_big_const(n):
+    def f(it, callee, args):
+        return (BigI if "BigInt" in callee else BigU)(z3.BitVecVal(n, it.W))
+    return f
+
+
+def m_bigint_from_biguint(it, callee, args):
+    x = val(args[0])
+    it.side.append(("bigint-model-overflow/to_bigint", z3.Extract(it.W - 1, it.W - 1, x.t) == 1))
+    return BigI(x.t)
+
+
+def m_int_from(it, callee, args):
+    m = re.search(r"<(u|i)(\d+|size) as From<(\w+)>>::from$|<(\w+) as Into<(u|i)(\d+|size)>>::into$", callee)
+    if m.group(1): dst, src = m.group(2), m.group(3)
+    else: dst, src = m.group(6), m.group(4)
+    w = 64 if dst == "size" else int(dst)
+    x = val(args[0])
+    if src == "bool":
+        b = x if z3.is_bool(x) else (x != 0)
+        return z3.If(b, z3.BitVecVal(1, w), z3.BitVecVal(0, w))
+    if src == "char": src = "u32"
+    if not z3.is_bv(x) or x.size() > w: raise Unsupported("int From " + callee)
+    return z3.SignExt(w - x.size(), x) if src.startswith("i") else z3.ZeroExt(w - x.size(), x)
+
+
+def assign_op(op):
+    f = arith(op)
+    def g(it, callee, args):
+        r = f(it, callee, [val(args[0]), args[1]])
+        args[0].set(r); return None
+    return g
+
+
+def m_int_checked(it, callee, args):
+    m = re.search(r"<impl ([ui])(\d+|size)>::(\w+)$", callee)
+    signed, meth = m.group(1) == "i", m.group(3)
+    a, b = val(args[0]), val(args[1])
+    w = a.size()
+    op = meth.split("_", 1)[1]
+    if op not in ("add", "sub"): raise Unsupported("int method " + meth)
+    r = a + b if op == "add" else a - b
+    if op == "add":
+        ovf = z3.Not(z3.And(z3.BVAddNoOverflow(a, b, signed), z3.BVAddNoUnderflow(a, b) if signed else True))
+    else:
+        ovf = z3.Not(z3.And(z3.BVSubNoUnderflow(a, b, signed), z3.BVSubNoOverflow(a, b) if signed else True))
+    if meth.startswith("wrapping_"): return r
+    if meth.startswith("checked_"):
+        return none() if it.branch(ovf) else some(r)
+    if meth.startswith("saturating_") and not signed:
+        return z3.If(ovf, z3.BitVecVal((1 << w) - 1 if op == "add" else 0, w), r)
+    raise Unsupported("int method " + meth)
+
+
+def m_then_some(it, callee, args):
+    c = val(args[0])
+    return some(val(args[1])) if it.branch(c if z3.is_bool(c) else c != 0) else none()
+
+
+def m_as_ref(it, callee, args):
+    from .interp import FieldRef
+    o = val(args[0])
+    if o.variant == 0: return none()
+    return some(FieldRef(args[0] if hasattr(args[0], "get") else ValRef(o), 0))
+
+
+def m_unwrap_or(it, callee, args):
+    o = val(args[0])
+    ok = (o.variant == 1) if o.name == "Option" else (o.variant == 0)
+    return o.fields[0] if ok else val(args[1])
+
+
+def m_and_then(it, callee, args):
+    o = val(args[0])
+    ok = (o.variant == 1) if o.name == "Option" else (o.variant == 0)
+    return it.call_closure(args[1], [o.fields[0]]) if ok else o
+
+
+def m_map_or(it, callee, args):
+    o = val(args[0])
+    ok = (o.variant == 1) if o.name == "Option" else (o.variant == 0)
+    if ok: return it.call_closure(args[2], [o.fields[0]])
+    return it.call_closure(args[1], []) if "map_or_else" in callee else val(args[1])
+
+
+def m_result_map(it, callee, args):
+    r = val(args[0])
+    if r.variant != 0: return r
+    return Agg("enum", "Result", [it.call_closure(args[1], [r.fields[0]])], 0)
+
+
+def m_result_map_err(it, callee, args):
+    r = val(args[0])
+    if r.variant == 0: return r
+    return Agg("enum", "Result", [it.call_closure(args[1], [r.fields[0]])], 1)
+
+
+def m_option_filter(it, callee, args):
+    o = val(args[0])
+    if o.variant == 0: return o
+    c = val(it.call_closure(args[1], [ValRef(o.fields[0])]))
+    t = c if isinstance(c, bool) else it.branch(c if z3.is_bool(c) else c != 0)
+    return o if t else none()
+
+
+def m_option_take(it, callee, args):
+    o = val(args[0]); args[0].set(none()); return o
+
+
 def m_ok(it, callee, args):
     r = val(args[0])
     return some(r.fields[0]) if r.variant == 0 else none()
@@ -357,6 +476,13 @@ MODELS = [
     (R(r"<&?Big(Ui|I)nt as (std::ops::)?BitOr(<.*>)?>::bitor$"), arith("bitor")),
     (R(r"<&?Big(Ui|I)nt as (std::ops::)?BitXor(<.*>)?>::bitxor$"), arith("bitxor")),
     (R(r"<Big(Ui|I)nt as (std::ops::)?Neg>::neg$"), m_neg),
+    (R(r"<Big(Ui|I)nt as (std::ops::)?AddAssign(<.*>)?>::add_assign$"), assign_op("add")),
+    (R(r"<Big(Ui|I)nt as (std::ops::)?SubAssign(<.*>)?>::sub_assign$"), assign_op("sub")),
+    (R(r"<Big(Ui|I)nt as (std::ops::)?MulAssign(<.*>)?>::mul_assign$"), assign_op("mul")),
+    (R(r"<Big(Ui|I)nt as (std::ops::)?BitAndAssign(<.*>)?>::bitand_assign$"), assign_op("bitand")),
+    (R(r"<Big(Ui|I)nt as (std::ops::)?BitOrAssign(<.*>)?>::bitor_assign$"), assign_op("bitor")),
+    (R(r"<Big(Ui|I)nt as (std::ops::)?BitXorAssign(<.*>)?>::bitxor_assign$"), assign_op("bitxor")),
+    (R(r"^<[ui](\d+|size) as From<(bool|char|[ui]\d+|[ui]size)>>::from$|^<(bool|[ui]\d+) as Into<[ui](\d+|size)>>::into$"), m_int_from),
     (R(r"<&?Big(Ui|I)nt as PartialEq(<.*>)?>::eq$"), cmp("eq")),
     (R(r"<&?Big(Ui|I)nt as PartialEq(<.*>)?>::ne$"), cmp("ne")),
     (R(r"<&?Big(Ui|I)nt as PartialOrd(<.*>)?>::lt$"), cmp("lt")),
@@ -372,10 +498,26 @@ MODELS = [
     (R(r"<BigUint as ToPrimitive>::to_u128$"), to_prim(128)),
     (R(r"<BigUint as ToPrimitive>::to_u32$"), to_prim(32)),
     (R(r"<BigUint as ToBigInt>::to_bigint$"), m_to_bigint),
+    (R(r"<Big(Ui|I)nt as (num_traits::)?Zero>::zero$"), m_big_const(0)),
+    (R(r"<Big(Ui|I)nt as (num_traits::)?One>::one$"), m_big_const(1)),
+    (R(r"<BigInt as From<BigUint>>::from$|<BigUint as Into<BigInt>>::into$"), m_bigint_from_biguint),
+    (R(r"^<\{closure@.*\} as (std::ops::)?Fn(Mut|Once)?<.*>>::call(_mut|_once)?$|^<fnptr as (std::ops::)?Fn(Mut|Once)?<.*>>::call(_mut|_once)?$"), m_closure_call),
     (R(r"BigInt::to_biguint$|<BigInt as ToBigUint>::to_biguint$"), m_to_biguint),
     (R(r"Option::<.*>::unwrap$|Result::<.*>::unwrap$|Option::<.*>::expect$|Result::<.*>::expect$"), m_unwrap),
     (R(r"Option::<.*>::map::<"), m_map),
     (R(r"Option::<.*>::unwrap_or_else::<"), m_unwrap_or_else),
+    (R(r"Option::<.*>::as_(ref|mut)$"), m_as_ref),
+    (R(r"num::<impl [ui](\d+|size)>::(checked|wrapping|saturating)_(add|sub)$"), m_int_checked),
+    (R(r"<impl bool>::then_some::<"), m_then_some),
+    (R(r"(Option|Result)::<.*>::unwrap_or$"), m_unwrap_or),
+    (R(r"(Option|Result)::<.*>::and_then::<"), m_and_then),
+    (R(r"(Option|Result)::<.*>::map_or(_else)?::<"), m_map_or),
+    (R(r"Result::<.*>::map::<"), m_result_map),
+    (R(r"Result::<.*>::map_err::<"), m_result_map_err),
+    (R(r"Option::<.*>::filter::<"), m_option_filter),
+    (R(r"Option::<.*>::take$"), m_option_take),
+    (R(r"Result::<.*>::is_ok$"), lambda it, c, a: z3.BoolVal(val(a[0]).variant == 0)),
+    (R(r"Result::<.*>::is_err$"), lambda it, c, a: z3.BoolVal(val(a[0]).variant != 0)),
     (R(r"Result::<.*>::ok$"), m_ok),
     (R(r"Option::<.*>::ok_or::<"), m_ok_or),
     (R(r"Option::<.*>::ok_or_else::<"), m_ok_or_else),
